@@ -1148,3 +1148,86 @@ Proof.
   intros Hwf Ht Ho Hs. destruct (wf_pipeline_elim p Hwf) as [ls Hw]. unfold eval_top.
   apply (eval_ok body pick p ls Hw Ht kw); [apply rk_lt_N; assumption|assumption|exact Hs].
 Qed.
+
+(* ====================================================================================================
+   Consistency of supplied intermediates; irrelevance of keywords the evaluation does not read.
+   ==================================================================================================== *)
+Section Consistency.
+  Variable body : str -> alist -> result str.
+  Variable pick : str -> str -> str.
+  Variable p : pipeline.
+  Variable ls : list (list str).
+  Hypothesis Hwf : wf_P p ls.
+
+  (* supplying an intermediate with the value the pipeline computes for it changes no value *)
+  Lemma supply_computed kw a va : aget kw a = None -> eval_top body pick p kw a = Ok va ->
+    forall n x, rk p ls x < n -> eval body pick n p ((a, va) :: kw) x = eval body pick n p kw x.
+  Proof.
+    intros Ha Hva. induction n as [|n IH]; intros x Hr; [lia|]. cbn [eval].
+    destruct (producer p x) as [f|] eqn:Ef; [|reflexivity].
+    pose proof (producer_Some _ _ _ Ef) as [Hf _]. rewrite (rk_producer p ls _ _ Ef) in Hr.
+    assert (E : args_with (eval body pick n p ((a, va) :: kw)) p ((a, va) :: kw) f
+                = args_with (eval body pick n p kw) p kw f).
+    { unfold args_with. apply mapM_ext_in. intros [cur orig] Hin. cbn [fst snd].
+      assert (Hcur : In cur (pnames f)) by (apply in_map_iff; now exists (cur, orig)).
+      enough (arg_val (eval body pick n p ((a, va) :: kw)) p ((a, va) :: kw) f cur
+              = arg_val (eval body pick n p kw) p kw f cur) as -> by reflexivity.
+      unfold arg_val. destruct (aget (bound f) cur) eqn:Eb; [reflexivity|]. cbn [aget].
+      destruct (str_eqb cur a) eqn:Eca.
+      - apply str_eqb_eq in Eca. subst cur. rewrite Ha.
+        unfold eval_top in Hva. assert (Hpa : exists g, producer p a = Some g).
+        { cbn [eval] in Hva. destruct (producer p a); [eauto|discriminate]. }
+        destruct Hpa as [g Eg]. assert (Eo : is_output p a = true) by (apply is_output_true; eauto). rewrite Eo.
+        rewrite <- Hva. symmetry. rewrite <- ahas_false_iff in Eb.
+        pose proof (wf_rank_edge _ _ Hwf f g a Hf Hcur Eb Eg).
+        apply (eval_fuel body pick p kw ls Hwf); [rewrite (rk_producer p ls _ _ Eg); lia|apply rk_lt_N; exact Hwf].
+      - destruct (aget kw cur); [reflexivity|]. destruct (is_output p cur) eqn:Eo; [|reflexivity].
+        apply is_output_true in Eo as [g Eg]. apply IH. rewrite (rk_producer p ls _ _ Eg).
+        rewrite <- ahas_false_iff in Eb. pose proof (wf_rank_edge _ _ Hwf f g cur Hf Hcur Eb Eg). lia. }
+    now rewrite E.
+  Qed.
+
+  (* keywords that the evaluation under kw1 does not read are irrelevant *)
+  Lemma eval_frame kw1 kw2 : forall n x, rk p ls x < n ->
+    (forall f cur, In f (needed n p kw1 x) -> In cur (pnames f) -> aget (bound f) cur = None ->
+                   aget kw1 cur = aget kw2 cur) ->
+    eval body pick n p kw2 x = eval body pick n p kw1 x.
+  Proof.
+    induction n as [|n IH]; intros x Hr Hag; [lia|]. cbn [eval].
+    destruct (producer p x) as [f|] eqn:Ef; [|reflexivity].
+    pose proof (producer_Some _ _ _ Ef) as [Hf _]. rewrite (rk_producer p ls _ _ Ef) in Hr.
+    assert (E : args_with (eval body pick n p kw2) p kw2 f = args_with (eval body pick n p kw1) p kw1 f).
+    { unfold args_with. apply mapM_ext_in. intros [cur orig] Hin. cbn [fst snd].
+      assert (Hcur : In cur (pnames f)) by (apply in_map_iff; now exists (cur, orig)).
+      enough (arg_val (eval body pick n p kw2) p kw2 f cur = arg_val (eval body pick n p kw1) p kw1 f cur) as -> by reflexivity.
+      unfold arg_val. destruct (aget (bound f) cur) eqn:Eb; [reflexivity|].
+      assert (Hk : aget kw1 cur = aget kw2 cur).
+      { apply (Hag f cur); auto. rewrite needed_S, Ef. now left. }
+      rewrite <- Hk. destruct (aget kw1 cur) eqn:Ek; [reflexivity|].
+      destruct (is_output p cur) eqn:Eo; [|reflexivity]. apply is_output_true in Eo as [g Eg].
+      apply IH.
+      - rewrite (rk_producer p ls _ _ Eg). rewrite <- ahas_false_iff in Eb.
+        pose proof (wf_rank_edge _ _ Hwf f g cur Hf Hcur Eb Eg). lia.
+      - intros f' cur' Hf' Hcur' Eb'. apply (Hag f' cur'); auto. rewrite needed_S, Ef. right.
+        apply in_flat_map. exists cur. split; [assumption|]. unfold source_of. now rewrite Eb, Ek, Eg. }
+    now rewrite E.
+  Qed.
+End Consistency.
+
+Theorem supplied_computed_consistent body pick p kw a va x :
+  wf_pipeline p -> aget kw a = None -> eval_top body pick p kw a = Ok va ->
+  eval_top body pick p ((a, va) :: kw) x = eval_top body pick p kw x.
+Proof.
+  intros Hwf Ha Hva. destruct (wf_pipeline_elim p Hwf) as [ls Hw]. unfold eval_top.
+  eapply supply_computed; eauto. apply rk_lt_N. exact Hw.
+Qed.
+
+Theorem unread_keywords_irrelevant body pick p kw1 kw2 x :
+  wf_pipeline p ->
+  (forall f cur, In f (needed_top p kw1 x) -> In cur (pnames f) -> aget (bound f) cur = None ->
+                 aget kw1 cur = aget kw2 cur) ->
+  eval_top body pick p kw2 x = eval_top body pick p kw1 x.
+Proof.
+  intros Hwf H. destruct (wf_pipeline_elim p Hwf) as [ls Hw]. unfold eval_top.
+  eapply eval_frame; eauto. apply rk_lt_N. exact Hw.
+Qed.
